@@ -220,6 +220,11 @@ struct Runner {
     std::vector<int> conflictExpl;              // positions? -> pool indices of the explanation
     struct Ded { int idx; bool sign; size_t depth; };
     std::vector<Ded> pending;
+    // the declarations and the assertions that are still in force, in the order they happened (for the second kind of fresh
+    // instance, which keeps the late declarations where they were relative to the surviving assertions)
+    struct Hist { bool isDecl; int k; bool sign; };
+    std::vector<Hist> hist;
+    bool lateDecl = false;
     std::ostream & out;
 
     Runner(Env & e, TSolverHandler & hh, std::vector<PoolLit> & p, std::ostream & o) : env(e), h(hh), pool(p), out(o) {}
@@ -252,6 +257,8 @@ struct Runner {
         if (k < 0 || k >= (int)pool.size() || !pool[k].usable || pool[k].declared) { out << "skip D" << k << "\n"; return; }
         h.declareAtom(pool[k].atom);
         pool[k].declared = true;
+        for (auto & e : hist) if (!e.isDecl) lateDecl = true;
+        hist.push_back({true, k, false});
         out << "decl " << k << "\n";
         dumpLA(true);
     }
@@ -260,6 +267,7 @@ struct Runner {
         lbool sgn = (sign != pool[k].flip) ? l_True : l_False;
         bool res = h.assertLit(PtAsgn(pool[k].atom, sgn));
         stack.push_back({k, sign});
+        hist.push_back({false, k, sign});
         ++sinceCheck;
         out << "assert " << k << (sign ? ":+" : ":-") << " -> " << (res ? 1 : 0);
         if (!res) { conflict = true; out << " expl" << explanation(); }
@@ -288,6 +296,7 @@ struct Runner {
         if (n == 0) { out << "skip B0\n"; return; }
         for (auto * s : h.solverSchedule) s->popBacktrackPoints(n);
         stack.resize(stack.size() - n);
+        for (unsigned removed = 0, i = hist.size(); i-- > 0 && removed < n;) if (!hist[i].isDecl) { hist.erase(hist.begin() + i); ++removed; }
         sinceCheck = 0;
         conflict = false; conflictExpl.clear();
         pending.erase(std::remove_if(pending.begin(), pending.end(), [&](Ded const & d) { return d.depth > stack.size(); }), pending.end());
@@ -297,7 +306,7 @@ struct Runner {
     void doCheck(bool complete) {
         if (conflict) { out << "skip C\n"; return; }
         TRes r = h.check(complete);
-        sinceCheck = 0;
+        if (r != TRes::UNSAT) sinceCheck = 0;   // after a conflict the whole unchecked batch (= the current decision level) is retracted
         bool splits = false;
         for (auto * s : h.solverSchedule) if (s->hasNewSplits()) splits = true;
         out << "check " << (complete ? 1 : 0) << " -> " << (r == TRes::SAT ? "SAT" : r == TRes::UNSAT ? "UNSAT" : "UNKNOWN");
@@ -347,6 +356,20 @@ struct Runner {
         if (env.theory == "LRA" || env.theory == "LIA") {
             LASolver * la = static_cast<LASolver *>(fh->solverSchedule[0]);
             if (la->status != LASolver::INIT) { out << "freshbounds"; dumpBoundsByValue(*la); out << "\n"; }
+        }
+        if (lateDecl) {
+            // second fresh instance: only the surviving assertions, the declarations where they were relative to them
+            auto lh = env.makeHandler();
+            bool ok2 = true;
+            for (auto & e : hist) {
+                if (e.isDecl) { lh->declareAtom(pool[e.k].atom); continue; }
+                lbool sgn = (e.sign != pool[e.k].flip) ? l_True : l_False;
+                if (!lh->assertLit(PtAsgn(pool[e.k].atom, sgn))) { ok2 = false; break; }
+            }
+            TRes r2 = TRes::UNSAT;
+            bool splits2 = false;
+            if (ok2) { r2 = lh->check(true); for (auto * s : lh->solverSchedule) if (s->hasNewSplits()) splits2 = true; }
+            out << "freshlate -> " << (r2 == TRes::SAT ? "SAT" : r2 == TRes::UNSAT ? "UNSAT" : "UNKNOWN") << (splits2 ? " splits" : "") << "\n";
         }
     }
     void dumpBoundsByValue(LASolver & la) {
